@@ -105,11 +105,20 @@ def tables():
         object: {"type": "entity", "show_attrs": ["idx"], "title_format": "any{idx}", "v1side": "x", "v2side": "+"},
         zoo.VSub: {"type": "class", "show_attrs": ["idx"], "title_format": "S{idx}"},
     }
-    return {"default": t0, "overrides": t1, "grandparents": t2, "userfunc": t3, "otherlinks": t4, "multi": t5, "idattr": t6,
+    t11 = {
+        # show_attrs handed over as patterns the user compiled himself - with flags: IGNORECASE picks `idx` up through
+        # "IDX$", VERBOSE lets the pattern carry a comment
+        Vertex: {"type": "object", "show_attrs": re.compile("IDX$", re.I), "title_format": "K{idx}"},
+        zoo.VSub: {"type": "class", "show_attrs": re.compile(r"""i d x $   # the index, spelled out""", re.X), "title_format": "S{idx}"},
+        zoo.FalsyVertex: {"type": "entity", "show_attrs": re.compile("^idx$|^uid$"), "title_format": "F{idx}"},
+        DirectedEdge: {"v1side": "", "v2side": ">"},
+        UnDirectedEdge: {"v1side": "", "v2side": ""},
+    }
+    return {"compiled": t11, "default": t0, "overrides": t1, "grandparents": t2, "userfunc": t3, "otherlinks": t4, "multi": t5, "idattr": t6,
             "fmtspec": t7, "sametitle": t8, "crowsfoot": t9, "catchall": t10}
 
 
-TABLE_ALLOWS_OTHER = {"default": False, "overrides": False, "grandparents": True, "userfunc": False, "otherlinks": True,
+TABLE_ALLOWS_OTHER = {"compiled": False, "default": False, "overrides": False, "grandparents": True, "userfunc": False, "otherlinks": True,
                       "multi": False, "incremental": False, "idattr": False, "fmtspec": False, "sametitle": False, "crowsfoot": False, "catchall": True}
 
 
